@@ -225,7 +225,7 @@ META["C16"] = {
 
 META["C19"] = {
     "title": "Scheduled tasks run at most once, never early, and stay cancelled",
-    "rule": "cases = (set of 1-4 tasks scheduled directly through the public Scheduler::schedule on the order-choosing executor: OnceTask, OnceTask returning a subscription (SubscribeReturn), FutureTask over a scripted future pending 0-2 polls, RepeatTask (new and new_immediate) with period 1|5 ms declining after 1-4 runs; delay in {none, 0, 1, 5} ms; for each handle a cancellation step (or none); local or thread-safe scheduler form; fifo|any task order; prompt|late schedule; seed). is_closed() of every handle is sampled before every step. Non-trivial: a cancellation fell while its task was still pending (scheduled, not finished); distinct = hash(case).",
+    "rule": "cases = (set of 1-4 tasks scheduled directly through the public Scheduler::schedule on the order-choosing executor: OnceTask, OnceTask returning a subscription (SubscribeReturn), FutureTask over a scripted future pending 0-2 polls, RepeatTask (new and new_immediate) with period 1|5 ms declining after 1-4 runs; delay in {none, 0, 0.4, 0.999, 1, 5} ms; for each handle a cancellation step (or none); local or thread-safe scheduler form; fifo|any task order; prompt|late schedule; seed). is_closed() of every handle is sampled before every step. Non-trivial: a cancellation fell while its task was still pending (scheduled, not finished); distinct = hash(case).",
     "assumptions": COMMON_ASSUME + [
         "bodies are harness fn pointers that log start/end stamps; 'never early' is judged on virtual time: a one-shot body not before schedule + delay, a repeating body not before its delay and later runs at least one period apart",
         "single-threaded here: 'the body is not still running when unsubscribe() returns' is checked by the baton scenarios (worker thread vs cancelling thread) reported under thread_* counters",
@@ -239,17 +239,17 @@ META["C19"] = {
 
 META["C14"] = {
     "title": "Conversions and completion status report the real outcome and never hang",
-    "rule": "cases = (conversion in to_future / to_stream / complete_status over Subject or SubjectThreads, script of 0..n items (quick n=4, thorough n=6) then complete / error / neither, optionally followed by a post-terminal item, with 0-2 manual polls placed before, between and after the events, polled with a counting waker). After a terminal the future/stream is polled at most twice more per element and must be ready; a poll that returned Pending before the terminal must have been woken by it; complete_status flags are compared with what the probe saw after every step and wait_for_end is called once the source has terminated. Plus the gate scenarios: a real waiter thread in wait_for_end is stopped at the hooked point of StatusFuture::poll while the producer thread runs complete()/error() (placements: terminal before the wait, inside the hooked window, after the waiter's first poll) x {complete, error}. Non-trivial: the source terminated while a poll had returned Pending, or terminated by error; distinct = hash(case).",
+    "rule": "cases = (conversion in to_future / to_stream / complete_status over Subject or SubjectThreads, script of 0..n items (quick n=4, thorough n=6) then complete / error / neither, optionally followed by a post-terminal item, with 0-2 manual polls placed before, between and after the events, polled with a counting waker). After a terminal the future/stream is polled at most twice more per element and must be ready; a poll that returned Pending before the terminal must have been woken by it; complete_status flags are compared with what the probe saw after every step and wait_for_end is called once the source has terminated. Plus the gate scenarios: a real waiter thread in wait_for_end is stopped at the hooked point of StatusFuture::poll while the producer thread runs complete()/error() (placements: terminal before the wait, inside the hooked window, after the waiter's first poll) x {complete, error}. Plus free-running two-thread races (quick 3000, thorough 300000): a real waiter thread blocks in block_on(to_future) / block_on(to_stream.collect) / wait_for_end on a SubjectThreads while the producing thread emits 0-3 items and a terminal with seeded yields, sleeps and spins (and the hook-point jitter on half of them); the waiter must return (bounded progress: within 20 s of the producer's terminal call having returned) with exactly the modelled outcome. Non-trivial: the source terminated while a poll had returned Pending, or terminated by error; distinct = hash(case).",
     "assumptions": COMMON_ASSUME + [
         "for 'items then error' to_future() may resolve to the error or to MultipleValues (the documentation fixes only the pure cases); it must resolve",
         "'never hang' is read as bounded progress: ready within two polls after termination (logical); in the gate scenarios the waiter gets 20 s, and only after the logical witness (waiter reached the hooked point, producer's terminal call returned) exists; no witness + timeout = inconclusive",
         "collect is covered by C03 (list semantics) and through to_future in random cases here",
     ],
     "technique": "runtime monitoring: manual polling of the real futures/streams with a counting waker against scripted Subject histories; gate orchestration on the status_window hook for the waiter/producer race",
-    "level_text": "Exploration over sampled poll/event interleavings, plus 6 orchestrated two-thread placements repeated per run.",
+    "level_text": "Exploration over sampled poll/event interleavings, plus 6 orchestrated two-thread placements repeated per run and thousands of free-running waiter/producer thread races.",
     "level_note": "Trusted: counting waker, the status_window hook placement (between waker registration and flag check of StatusFuture::poll).",
     "design_ref": "DESIGN.md §5 C14",
-    "require": {"quick": {"conversions_covered": 3, "gate_scenarios": 12}, "thorough": {"conversions_covered": 3, "gate_scenarios": 60}},
+    "require": {"quick": {"conversions_covered": 3, "gate_scenarios": 12, "two_thread_races": 2000}, "thorough": {"conversions_covered": 3, "gate_scenarios": 60, "two_thread_races": 100000}},
 }
 
 META["C11"] = {
